@@ -11,6 +11,8 @@ from the live Python classes on every run.
 -/
 import MesonModel.ArgList.SpecLemmas
 import MesonModel.ArgList.NativeLemmas
+import MesonModel.ArgList.ToNativeLemmas
+import MesonModel.ArgList.AssembleLemmas
 import MesonModel.ArgList.RefLemmas
 import MesonModel.ArgList.RegexLemmas
 import MesonModel.Generated.ArgTables
@@ -562,5 +564,284 @@ theorem to_native_strip_only_removes (dirs l : List Arg) : (stripDefaults dirs l
 /-- without a GNU-like linker and without default directories `to_native` is the list itself -/
 theorem to_native_plain (l : List Arg) : nativeList .plain l = l ∧ nativeList (.clike false []) l = l := by
   simp [nativeList, stripDefaults]
+
+
+/-! ### `to_native` as a whole: flush, group markers, default-include stripping
+
+`CLikeCompilerArgs.to_native` = `flush_pre_post`, then (GNU-like linkers) the group markers, then the removal
+of `-isystem <default include dir>`, then `compiler.unix_args_to_native` (the identity copy of
+`Compiler.unix_args_to_native` for every compiler the harness runs; MSVC-style translation is not modelled).
+`DirsAbs dirs`: the default directories are absolute paths -- they are `os.path.realpath` results. -/
+
+/-- **the index loop is the index-free pass `stripSpec`**: a bare `-isystem` followed by a default directory
+goes together with the directory, a joined `-isystem<dir>`/`-isystem=<dir>` naming one goes, all else stays -/
+theorem to_native_strip_is_spec (dirs l : List Arg) (hd : DirsAbs dirs) :
+    stripDefaults dirs l = stripSpec dirs l :=
+  stripDefaults_eq_stripSpec dirs (dirsOk_of_abs hd) l
+
+/-- the hypothesis is needed: with a "directory" that itself looks like `-isystem` the index list repeats
+an index and an unrelated argument is popped -/
+example : stripDefaults [isys] [isys, isys, isys, ['k']] = [] ∧ stripSpec [isys] [isys, isys, isys, ['k']] = [isys, ['k']] := by
+  decide
+
+/-- **nothing is invented but the two markers, order is kept**: without the markers the result is a
+sublist of the argument list (every class flavour, every directory list) -/
+theorem to_native_nothing_invented (n : Native) (l : List Arg) :
+    ((nativeList n l).filter (fun a => a ∉ groupMarkers)).Sublist l := by
+  cases n with
+  | plain => exact List.filter_sublist
+  | clike gnu dirs =>
+    simp only [nativeList]
+    refine ((to_native_strip_only_removes dirs _).filter _).trans ?_
+    cases gnu
+    · exact List.filter_sublist
+    · simp only [if_true]
+      rw [to_native_only_inserts_groups]
+      exact List.filter_sublist
+
+/-- **nothing is lost but default-directory `-isystem` arguments**: the arguments that are not the bare word
+`-isystem`, not a joined form naming a default directory, not a default directory and not a marker come
+out exactly as they went in -- same order, same multiplicity -/
+theorem to_native_nothing_lost (gnu : Bool) (dirs l : List Arg) (hd : DirsAbs dirs) (p : Arg → Bool)
+    (hp : ∀ x, p x = true → survives dirs x = true ∧ x ∉ groupMarkers) :
+    (nativeList (.clike gnu dirs) l).filter p = l.filter p := by
+  rw [nativeList_clike gnu dirs l hd, stripSpec_filter dirs p (fun x hx => (hp x hx).1)]
+  cases gnu
+  · rfl
+  · simp only [if_true]
+    have h := congrArg (List.filter p) (to_native_only_inserts_groups l)
+    rw [List.filter_filter, List.filter_filter] at h
+    have e : ∀ m : List Arg, m.filter (fun a => p a && decide (a ∉ groupMarkers)) = m.filter p := by
+      intro m
+      apply List.filter_congr
+      intro x _
+      cases hx : p x
+      · rfl
+      · simp [(hp x hx).2]
+    rwa [e, e] at h
+
+/-- in particular every such argument keeps its multiplicity -/
+theorem to_native_keeps_count (gnu : Bool) (dirs l : List Arg) (hd : DirsAbs dirs) (x : Arg)
+    (hx : survives dirs x = true) (hm : x ∉ groupMarkers) :
+    (nativeList (.clike gnu dirs) l).count x = l.count x := by
+  have h := to_native_nothing_lost gnu dirs l hd (fun y => y == x)
+    (by intro y hy; simp at hy; subst hy; exact ⟨hx, hm⟩)
+  have e : ∀ m : List Arg, m.count x = (m.filter (fun y => y == x)).length := by
+    intro m; simp [List.count, List.countP_eq_length_filter]
+  rw [e, e, h]
+
+/-- the hypotheses are met by ordinary arguments, and a joined default directory does not survive -/
+example : survives [['/', 'u']] ['-', 'l', 'm'] = true ∧ survives [['/', 'u']] ['-', 'i', 's', 'y', 's', 't', 'e', 'm', '/', 'v'] = true ∧
+    survives [['/', 'u']] ['-', 'i', 's', 'y', 's', 't', 'e', 'm', '/', 'u'] = false ∧ DirsAbs [['/', 'u']] := by
+  refine ⟨by decide, by decide, by decide, ?_⟩
+  intro d hd
+  simp at hd
+  subst hd
+  rfl
+
+/-- **the markers enclose every library argument** (GNU-like linker): with fewer than two library-like
+arguments only the default-include pass runs; otherwise the result is `P ++ start :: M ++ end :: Q` where
+`P`, `M`, `Q` are what is left of the part before the first library-like argument, of the span from the first to
+the last one, and of the part after it -- no library-like argument is outside the markers -/
+theorem to_native_markers_enclose_libraries (dirs l : List Arg) (hd : DirsAbs dirs) :
+    ((l.filter groupFlags).length ≤ 1 ∧ nativeList (.clike true dirs) l = stripSpec dirs l) ∨
+    ∃ pre span post, l = pre ++ span ++ post ∧ 2 ≤ (span.filter groupFlags).length ∧
+      nativeList (.clike true dirs) l =
+        stripSpec dirs pre ++ startGroup :: (stripSpec dirs span ++ endGroup :: stripSpec dirs post) ∧
+      (∀ x ∈ stripSpec dirs pre, groupFlags x = false) ∧ (∀ x ∈ stripSpec dirs post, groupFlags x = false) := by
+  rcases nativeList_gnu_shape dirs l hd with h | ⟨pre, a, mid, b, post, hl, ha, hb, hpre, hpost, hn⟩
+  · exact Or.inl h
+  · refine Or.inr ⟨pre, a :: (mid ++ [b]), post, by simp [hl], ?_, hn,
+      fun x hx => hpre x (mem_stripSpec hx), fun x hx => hpost x (mem_stripSpec hx)⟩
+    simp only [List.filter_cons, ha, if_true, List.filter_append, hb, List.filter_nil, List.length_cons,
+      List.length_append, List.length_nil]
+    omega
+
+/-- **the markers appear at most once more than in the input**, and only as a pair, only for a GNU-like
+linker with at least two library-like arguments -/
+theorem to_native_markers_at_most_once (gnu : Bool) (dirs l : List Arg) (hd : DirsAbs dirs) :
+    ((nativeList (.clike gnu dirs) l).count startGroup = l.count startGroup ∧
+      (nativeList (.clike gnu dirs) l).count endGroup = l.count endGroup) ∨
+    (gnu = true ∧ 2 ≤ (l.filter groupFlags).length ∧
+      (nativeList (.clike gnu dirs) l).count startGroup = l.count startGroup + 1 ∧
+      (nativeList (.clike gnu dirs) l).count endGroup = l.count endGroup + 1) := by
+  have hs := survives_startGroup hd
+  have he := survives_endGroup hd
+  cases gnu
+  · left
+    rw [nativeList_clike false dirs l hd]
+    exact ⟨stripSpec_count dirs l _ hs, stripSpec_count dirs l _ he⟩
+  · rcases nativeList_gnu_shape dirs l hd with ⟨_, h⟩ | ⟨pre, a, mid, b, post, hl, ha, hb, hpre, hpost, hn⟩
+    · left
+      rw [h]
+      exact ⟨stripSpec_count dirs l _ hs, stripSpec_count dirs l _ he⟩
+    · right
+      have hl' : l = pre ++ (a :: (mid ++ [b])) ++ post := by simp [hl]
+      have h2 : 2 ≤ (l.filter groupFlags).length := by
+        rw [hl]
+        simp only [List.filter_cons, ha, if_true, List.filter_append, hb, List.length_cons, List.length_append]
+        omega
+      have e1 : (endGroup == startGroup) = false := by decide
+      have e2 : (startGroup == endGroup) = false := by decide
+      refine ⟨rfl, h2, ?_, ?_⟩
+      · rw [hn, hl']
+        simp only [List.count_append, List.count_cons, stripSpec_count dirs _ _ hs, beq_self_eq_true, if_true, e1,
+          Bool.false_eq_true, if_false]
+        omega
+      · rw [hn, hl']
+        simp only [List.count_append, List.count_cons, stripSpec_count dirs _ _ he, beq_self_eq_true, if_true, e2,
+          Bool.false_eq_true, if_false]
+        omega
+
+/-- a list without markers gets each marker at most once -/
+theorem to_native_markers_fresh (gnu : Bool) (dirs l : List Arg) (hd : DirsAbs dirs)
+    (h1 : startGroup ∉ l) (h2 : endGroup ∉ l) :
+    (nativeList (.clike gnu dirs) l).count startGroup ≤ 1 ∧ (nativeList (.clike gnu dirs) l).count endGroup ≤ 1 := by
+  have c1 := List.count_eq_zero.mpr h1
+  have c2 := List.count_eq_zero.mpr h2
+  rcases to_native_markers_at_most_once gnu dirs l hd with ⟨a, b⟩ | ⟨_, _, a, b⟩ <;> omega
+
+/-- a linker that is not GNU-like never gets markers: the result is the default-include pass alone -/
+theorem to_native_non_gnu (dirs l : List Arg) (hd : DirsAbs dirs) :
+    nativeList (.clike false dirs) l = stripSpec dirs l := by
+  rw [nativeList_clike false dirs l hd]; rfl
+
+/-- both branches on one list: GNU-like with default directories, and not GNU-like -/
+example : nativeList (.clike true [['/', 'u']]) [['-', 'l', 'a'], isys, ['/', 'u'], ['x', '.', 'a'], isys ++ ['/', 'u'], ['m', '.', 'o']] =
+      [startGroup, ['-', 'l', 'a'], ['x', '.', 'a'], endGroup, ['m', '.', 'o']] ∧
+    nativeList (.clike false [['/', 'u']]) [['-', 'l', 'a'], isys, ['/', 'u'], ['x', '.', 'a'], isys ++ ['/', 'u'], ['m', '.', 'o']] =
+      [['-', 'l', 'a'], ['x', '.', 'a'], ['m', '.', 'o']] := by
+  decide
+
+/-- **`to_native(copy=True)` does not modify the receiver**: the object is left flushed -- the same eager
+list -- and every later operation sequence gives the outputs it would have given without the call -/
+theorem to_native_copy_leaves_receiver (cfg : Cfg) (s : State) (hi : Inv cfg.K s) (ops : List Op) :
+    (step cfg s (.toNative true)).1 = flush cfg.K s ∧
+    runLazy cfg (step cfg s (.toNative true)).1 ops = runLazy cfg s ops ∧
+    finalLazy cfg (step cfg s (.toNative true)).1 ops = finalLazy cfg s ops := by
+  refine ⟨rfl, ?_, ?_⟩
+  · show runLazy cfg (flush cfg.K s) ops = _
+    rw [runLazy_eq_runEager_flush cfg ops _ (inv_flush s), flush_flush, ← runLazy_eq_runEager_flush cfg ops s hi]
+  · show finalLazy cfg (flush cfg.K s) ops = _
+    rw [finalLazy_eq_finalEager_flush cfg ops _ (inv_flush s), flush_flush, ← finalLazy_eq_finalEager_flush cfg ops s hi]
+
+/-- whereas `copy=False` turns the receiver into the native list -/
+theorem to_native_in_place (cfg : Cfg) (s : State) :
+    (step cfg s (.toNative false)).1.container = nativeList cfg.native (flush cfg.K s).container := rfl
+
+theorem finalLazy_eq_foldl (cfg : Cfg) (ops : List Op) (s : State) :
+    finalLazy cfg s ops = (flush cfg.K (ops.foldl (fun s op => (step cfg s op).1) s)).container := by
+  induction ops generalizing s with
+  | nil => rfl
+  | cons op ops ih => exact ih _
+
+/-- **composition with the eager meaning**: after any operation sequence on a constructed object,
+`to_native` returns the native form of the *eager* final list (the list of the object flushed after every
+operation) -/
+theorem to_native_of_lazy_is_native_of_eager (cfg : Cfg) (init : List Arg) (ops : List Op) (c : Bool) :
+    (step cfg (ops.foldl (fun s op => (step cfg s op).1) (mk init)) (.toNative c)).2 =
+      .list (nativeList cfg.native (finalEager cfg (mk init) ops)) := by
+  rw [← lazy_final_eq_eager_final, finalLazy_eq_foldl]
+  rfl
+
+/-! ### the backend's assembly of one compile line
+
+`Assemble.lean` spells out, group by group, what `_generate_single_compile_base_args`,
+`generate_basic_compiler_args`, `_generate_single_compile_target_args` and `_generate_single_compile` add
+and in which order (`Sources`: the abstract argument groups and the conditions the code tests). -/
+
+/-- **the assembled lazy objects denote the eager fold**: the list the backend reads is the base-option list,
+eagerly extended by the target list, which is itself the eager fold over the groups in the documented order
+(with the `/Zi` fix after the `<lang>_args` option group) -/
+theorem backend_assembly_is_eager (K : Classify) (src : Sources) : compileLine K src = compileSpec K src :=
+  compileLine_eq src
+
+/-- and `to_native` of the assembled object is the native form of that list -/
+theorem to_native_of_compile_line (cfg : Cfg) (src : Sources) (c : Bool) :
+    (step cfg (compileLazy cfg.K src) (.toNative c)).2 = .list (nativeList cfg.native (compileSpec cfg.K src)) := by
+  rw [← backend_assembly_is_eager]
+  rfl
+
+/-- the documented order of the groups of the target list, for an executable with `werror`, one found
+dependency, implicit include directories and one `include_directories` object -/
+example (a b c d e f g h i j k : List Arg) :
+    let src : Sources := {
+      visibility := [], baseOpts := [], noStdlib := a, always := b, warn := c, werror := true, werrorArgs := d,
+      optionCompile := [], optionStd := [], optimization := [], debug := [], project := e, globalArgs := f, ext := g,
+      kind := .executable true, picArgs := [], pieArgs := h, deps := [⟨true, i, []⟩, ⟨false, k, k⟩], fortran := false, fortranIncs := [],
+      showDep := [], implicitIncs := true, customTargetDirs := [], incDirs := [⟨[(j, k)], []⟩], extra := k, isD := false, dFeatures := [],
+      srcDirInc := a, buildDirInc := b, privateDirInc := c }
+    earlyGroups src ++ basicLateGroups src ++ ninjaGroups src =
+      [a, b, c, d, [], [], [], [], e, f, g, h, i, [], [], [], j, k, k, a, b, c] := by
+  intro src; rfl
+
+/-- **a later-added setting wins** (`-D`/`-U`/`-isystem`-like: override-type, appended): if `y` is added by
+group `g` and by no later group, and `x` is in the list by then and not added again from `g` on, then in the
+assembled list `x` comes before `y`, and `y` occurs exactly once -- the compiler sees the later setting last -/
+theorem later_setting_wins (K : Classify) (L0 : List Arg) (B : List (List Arg)) (g : List Arg) (C : List (List Arg))
+    (x y : Arg) (hx : x ∈ assembleFrom K L0 B) (hxg : x ∉ g) (hxC : ∀ c ∈ C, x ∉ c)
+    (hy : y ∈ g) (hyC : ∀ c ∈ C, y ∉ c) (hd : K.dd y = .overridden) (hp : K.pp y = false) :
+    [x, y].Sublist (assembleFrom K L0 (B ++ g :: C)) ∧ (assembleFrom K L0 (B ++ g :: C)).count y = 1 := by
+  have e : assembleFrom K L0 (B ++ g :: C) = assembleFrom K (specAdd K (assembleFrom K L0 B) g) C := by
+    rw [assembleFrom_append]; rfl
+  rw [e]
+  constructor
+  · apply sublist_assembleFrom_of_untouched
+    · intro c hc z hz
+      rcases List.mem_cons.mp hz with rfl | hz
+      · exact hxC c hc
+      · rcases List.mem_cons.mp hz with rfl | hz
+        · exact hyC c hc
+        · cases hz
+    · exact pair_specAdd_back _ g x y hx hxg hy (by rw [hd]; decide) hp
+  · rw [count_assembleFrom_of_untouched _ C y hyC]
+    exact override_survivor_unique K _ g y hd hy
+
+/-- **the `-I`/`-L` of a later group goes in front** (override- and prepend-type): under the same conditions
+`y` comes before `x`, and occurs exactly once -- the later-added directory is searched first -/
+theorem later_include_goes_in_front (K : Classify) (L0 : List Arg) (B : List (List Arg)) (g : List Arg)
+    (C : List (List Arg)) (x y : Arg) (hx : x ∈ assembleFrom K L0 B) (hxg : x ∉ g) (hxC : ∀ c ∈ C, x ∉ c)
+    (hy : y ∈ g) (hyC : ∀ c ∈ C, y ∉ c) (hd : K.dd y = .overridden) (hp : K.pp y = true) :
+    [y, x].Sublist (assembleFrom K L0 (B ++ g :: C)) ∧ (assembleFrom K L0 (B ++ g :: C)).count y = 1 := by
+  have e : assembleFrom K L0 (B ++ g :: C) = assembleFrom K (specAdd K (assembleFrom K L0 B) g) C := by
+    rw [assembleFrom_append]; rfl
+  rw [e]
+  constructor
+  · apply sublist_assembleFrom_of_untouched
+    · intro c hc z hz
+      rcases List.mem_cons.mp hz with rfl | hz
+      · exact hyC c hc
+      · rcases List.mem_cons.mp hz with rfl | hz
+        · exact hxC c hc
+        · cases hz
+    · exact pair_specAdd_front _ g x y hx hxg hy (by rw [hd]; decide) hp
+  · rw [count_assembleFrom_of_untouched _ C y hyC]
+    exact override_survivor_unique K _ g y hd hy
+
+/-- what "`x` is in the list by then" means: it was there at the start or an earlier group added it -/
+theorem in_assembled_iff (K : Classify) (L0 : List Arg) (gs : List (List Arg)) (x : Arg) :
+    x ∈ assembleFrom K L0 gs ↔ x ∈ L0 ∨ ∃ g ∈ gs, x ∈ g := mem_assembleFrom
+
+/-- the last step of `_generate_single_compile`: a target-level setting wins over the base-option list, a
+target-level `-I` goes in front of it -/
+theorem target_list_over_base_list (K : Classify) (src : Sources) (x y : Arg)
+    (hx : x ∈ assembleFrom K [] [src.visibility, src.baseOpts]) (hxT : x ∉ targetArgsSpec K src)
+    (hy : y ∈ targetArgsSpec K src) (hd : K.dd y = .overridden) :
+    (K.pp y = false → [x, y].Sublist (compileSpec K src)) ∧ (K.pp y = true → [y, x].Sublist (compileSpec K src)) :=
+  ⟨fun hp => pair_specAdd_back _ _ x y hx hxT hy (by rw [hd]; decide) hp,
+   fun hp => pair_specAdd_front _ _ x y hx hxT hy (by rw [hd]; decide) hp⟩
+
+/-- **shape of every assembled list**: started from an empty list, the prepend-type arguments (`-I`, `-L`)
+form a front block and everything else follows -/
+theorem assembled_blocks (K : Classify) (gs : List (List Arg)) :
+    ∃ A B, assembleFrom K [] gs = A ++ B ∧ (∀ a ∈ A, K.pp a = true) ∧ (∀ b ∈ B, K.pp b = false) :=
+  assembleFrom_blocks gs [] [] [] rfl (by simp) (by simp)
+
+/-- the three statements on the live C-like tables: project `-DX=1`, target `-DX=2` and `-DX=1` again in a
+dependency; include directories of three groups -/
+example :
+    assembleFrom clikeTables.classify [] ["-DX=1".toList :: ["-Ia".toList], ["-O2".toList, "-Ib".toList], ["-DX=2".toList, "-Ia".toList]] =
+      ["-Ia".toList, "-Ib".toList, "-DX=1".toList, "-O2".toList, "-DX=2".toList] := by
+  decide
 
 end MesonModel.Props.C13
